@@ -221,8 +221,8 @@ impl<'a> StructSerializer<'a> {
 //@@ nowhere
 //@@ blockarms
 //@@ param value : &ValS
-//@@ subst `key.serialize(&mut serializer)?` => `str_serialize(key, &mut serializer)?` rule=R28
-//@@ subst `value.serialize(&mut *self.se)?` => `value.serialize(self.se)?` rule=R4
+//@@ subst `key.serialize(&mut serializer)?` => `str_serialize(key, &mut serializer)?` rule=R28 unless `key\.serialize`
+//@@ subst `value.serialize(&mut *self.se)?` => `value.serialize(self.se)?` rule=R4 unless `\*self\.se`
 //@@ entry
     proof { lemma_names_distinct(); }
 //@@ spec
@@ -340,7 +340,7 @@ impl SizeSerializer {
 //@@ nowhere
 //@@ param value : &ValS
 //@@ ret Result<usize, Error>
-//@@ subst `value.serialize(self).map(|len| len + 1)` => `(match value.serialize(self) { Ok(len) => Ok(len + 1), Err(e) => Err(e) })` rule=R19 unless `\.map\(`
+//@@ subst `value.serialize(self).map(|len| __E1)` => `(match value.serialize(self) { Ok(len) => Ok(__E1), Err(e) => Err(e) })` rule=R19 unless `\.map\(`
 //@@ subst `state.serialize_entry(&variant_index, value)?` => `state.serialize_entry(u32_as_val(&variant_index), value)?` rule=R28
 //@@ entry
     proof { lemma_names_distinct(); }
